@@ -6,6 +6,8 @@ package gabi
 // Nothing here changes behaviour; without the tag this file is not compiled.
 
 import (
+	"io"
+
 	"github.com/privacybydesign/gabi/big"
 	"github.com/privacybydesign/gabi/internal/common"
 	"github.com/privacybydesign/gabi/revocation"
@@ -85,4 +87,30 @@ func (ic *Credential) VerifPeekNonrevCache() *NonRevocationProofBuilder {
 // VerifKeyshareHash exposes keyshareUserCommitmentsHash (CBOR + SHA-256 of the challenge input).
 func VerifKeyshareHash[T any](i []KeyshareUserChallengeInput[T]) ([]byte, error) {
 	return keyshareUserCommitmentsHash(i)
+}
+
+func VerifLegendreSymbol(a, p *big.Int) int { return common.LegendreSymbol(a, p) }
+
+func VerifCrt(a, pa, b, pb *big.Int) *big.Int { return common.Crt(a, pa, b, pb) }
+
+func VerifSumFourSquares(n *big.Int) (*big.Int, *big.Int, *big.Int, *big.Int) {
+	return common.SumFourSquares(n)
+}
+
+func VerifPrimeSqrt(a, p *big.Int) (*big.Int, bool) { return common.PrimeSqrt(a, p) }
+
+func VerifModSqrt(a *big.Int, factors []*big.Int) (*big.Int, bool) { return common.ModSqrt(a, factors) }
+
+// VerifFastMod reduces x modulo p with common.FastMod; with alias the result is written into x itself.
+func VerifFastMod(p, x *big.Int, alias bool) *big.Int {
+	var m common.FastMod
+	m.Set(p)
+	if alias {
+		return m.Mod(x, x)
+	}
+	return m.Mod(new(big.Int), x)
+}
+
+func VerifRandomPrimeInRange(rand io.Reader, start, length uint) (*big.Int, error) {
+	return common.RandomPrimeInRange(rand, start, length)
 }
